@@ -62,6 +62,8 @@ func changeRequestToTarget(req *http.Request, httpsDefault bool) error {
 	}
 
 	targetUrl.Path = req.URL.Path
+	// Keep the client's own escaping of the path ("/x%2Fy" must not become "/x/y")
+	targetUrl.RawPath = req.URL.RawPath
 	targetUrl.RawQuery = req.URL.RawQuery
 	targetUrl.Fragment = req.URL.Fragment
 	req.URL = targetUrl
